@@ -373,3 +373,275 @@ Proof.
     + ev_ind ES. ev_ind ET. ev_ind EL.
       apply value_le_prod; [unfold liquidity; lia|]. unfold reserve_std, reserve_tok. rewrite ES, ET. lia.
 Qed.
+
+Lemma remove_value s s' sender dlpt w min_std min_tok deadline r cp n :
+  Inv s -> In (cp, n) (pools s) -> is_pool_acct sender = false ->
+  exec_remove s sender dlpt w min_std min_tok deadline = Ret (s', r) ->
+  0 < liquidity s n -> value_le s s' cp n.
+Proof.
+  intros I Hin Hs E HL.
+  apply not_pool_le in Hs. destruct (inv_rng _ I _ _ Hin) as (Hn & Hcp).
+  pose proof (inv_nn _ I (pool_acct n) std) as NS. pose proof (inv_nn _ I (pool_acct n) cp) as NT.
+  pose proof (exec_remove_spec _ _ _ _ _ _ _ _ _ E) as X. cbv zeta in X.
+  destruct X as (cp0 & a1 & a2 & Hc & _ & Hw & Ha1 & Ha2 & _ & _ & _ & _ & _ & M & R).
+  set (n0 := dlpt - 1000) in *.
+  apply cp_of_list_In in Hc. fold (pools s) in Hc. destruct (inv_rng _ I _ _ Hc) as (Hn0 & _).
+  destruct M as (ML & MS & _).
+  pose proof (ML (pool_acct n) std) as ES. pose proof (ML (pool_acct n) cp) as ET. pose proof (MS (lpt n)) as EL.
+  unfold remove_sheet in ES, ET. unfold lpt_delta in EL.
+  destruct (Z.eq_dec n0 n) as [Heq|Hne].
+  - rewrite Heq in *. pose proof (reg_same_n _ _ _ _ I Hc Hin) as Hcc. subst cp0.
+    ev_ind ES. ev_ind ET. ev_ind EL.
+    unfold value_le. unfold reserve_std, reserve_tok, liquidity in *.
+    set (S := bal (led s) (pool_acct n) std) in *. set (T := bal (led s) (pool_acct n) cp) in *.
+    set (L := supply s (lpt n)) in *.
+    rewrite quot_div_nonneg in Ha1 by nia. rewrite quot_div_nonneg in Ha2 by nia.
+    pose proof (remove_monotone S T L w NS NT HL ltac:(lia) ltac:(lia)) as A. cbv zeta in A. destruct A as (A & _).
+    replace (bal (led s') (pool_acct n) std) with (S - w * S / L) by lia.
+    replace (bal (led s') (pool_acct n) cp) with (T - w * T / L) by lia.
+    replace (supply s' (lpt n)) with (L - w) by lia.
+    exact A.
+  - ev_ind ES. ev_ind ET. ev_ind EL.
+    apply value_le_prod; [unfold liquidity; lia|]. unfold reserve_std, reserve_tok. rewrite ES, ET. lia.
+Qed.
+
+Lemma add_uni_value s s' sender cp0 dtok exact min_liq deadline r cp n :
+  Inv s -> In (cp, n) (pools s) -> is_pool_acct sender = false ->
+  exec_add_uni s sender cp0 dtok exact min_liq deadline = Ret (s', r) ->
+  0 < liquidity s n -> value_le s s' cp n.
+Proof.
+  intros I Hin Hs E HL.
+  apply not_pool_le in Hs. destruct (inv_rng _ I _ _ Hin) as (Hn & Hcp).
+  pose proof (inv_nn _ I (pool_acct n) std) as NS. pose proof (inv_nn _ I (pool_acct n) cp) as NT.
+  pose proof (phi_u_range _ I) as Hphi. pose proof P18_pos as HP.
+  destruct (exec_add_uni_spec _ _ _ _ _ _ _ _ _ E) as (n0 & mint & Hp & Hdt & _ & Hex & Hnz & Hm & _ & Hm0 & _ & M & R).
+  apply pool_of_In in Hp. destruct (inv_rng _ I _ _ Hp) as (Hn0 & Hcp0).
+  destruct M as (ML & MS & _).
+  pose proof (ML (pool_acct n) std) as ES. pose proof (ML (pool_acct n) cp) as ET. pose proof (MS (lpt n)) as EL.
+  unfold uni_add_sheet in ES, ET. unfold lpt_delta in EL.
+  destruct (Z.eq_dec n0 n) as [Heq|Hne].
+  - subst n0. pose proof (reg_same_n _ _ _ _ I Hp Hin) as Hcc. subst cp0.
+    unfold value_le. unfold reserve_std, reserve_tok, liquidity in *.
+    set (S := bal (led s) (pool_acct n) std) in *. set (T := bal (led s) (pool_acct n) cp) in *.
+    set (L := supply s (lpt n)) in *.
+    destruct Hdt as [Hdt|Hdt]; subst dtok.
+    + (* the token side *)
+      fold T in Hnz, Hm. ev_ind ES. ev_ind ET. ev_ind EL.
+      rewrite quot_div_nonneg in Hm by nia.
+      pose proof (add_one_sided_monotone T L exact (phi_u s) P18 ltac:(lia) HL ltac:(lia) HP Hphi) as A.
+      cbv zeta in A. destruct A as (A & _).
+      replace (bal (led s') (pool_acct n) std) with S by lia.
+      replace (bal (led s') (pool_acct n) cp) with (T + exact) by lia.
+      replace (supply s' (lpt n)) with (Z.sqrt ((P18 * T + phi_u s * exact) * L * L / (P18 * T))) by lia.
+      set (L' := Z.sqrt ((P18 * T + phi_u s * exact) * L * L / (P18 * T))) in *. clearbody L'.
+      replace (S * T * (L' * L')) with (S * (T * (L' * L'))) by ring.
+      replace (S * (T + exact) * (L * L)) with (S * ((T + exact) * (L * L))) by ring.
+      apply Z.mul_le_mono_nonneg_l; assumption.
+    + (* the standard side *)
+      fold S in Hnz, Hm. ev_ind ES. ev_ind ET. ev_ind EL.
+      rewrite quot_div_nonneg in Hm by nia.
+      pose proof (add_one_sided_monotone S L exact (phi_u s) P18 ltac:(lia) HL ltac:(lia) HP Hphi) as A.
+      cbv zeta in A. destruct A as (A & _).
+      replace (bal (led s') (pool_acct n) std) with (S + exact) by lia.
+      replace (bal (led s') (pool_acct n) cp) with T by lia.
+      replace (supply s' (lpt n)) with (Z.sqrt ((P18 * S + phi_u s * exact) * L * L / (P18 * S))) by lia.
+      set (L' := Z.sqrt ((P18 * S + phi_u s * exact) * L * L / (P18 * S))) in *. clearbody L'.
+      replace (S * T * (L' * L')) with (T * (S * (L' * L'))) by ring.
+      replace ((S + exact) * T * (L * L)) with (T * ((S + exact) * (L * L))) by ring.
+      apply Z.mul_le_mono_nonneg_l; assumption.
+  - ev_ind ES. ev_ind ET. ev_ind EL.
+    apply value_le_prod; [unfold liquidity; lia|]. unfold reserve_std, reserve_tok. rewrite ES, ET. lia.
+Qed.
+
+Lemma remove_uni_value s s' sender cp0 dtok min_tok w deadline r cp n :
+  Inv s -> In (cp, n) (pools s) -> is_pool_acct sender = false ->
+  exec_remove_uni s sender cp0 dtok min_tok w deadline = Ret (s', r) ->
+  0 < liquidity s n -> value_le s s' cp n.
+Proof.
+  intros I Hin Hs E HL.
+  apply not_pool_le in Hs. destruct (inv_rng _ I _ _ Hin) as (Hn & Hcp).
+  pose proof (inv_nn _ I (pool_acct n) std) as NS. pose proof (inv_nn _ I (pool_acct n) cp) as NT.
+  pose proof (phi_u_range _ I) as Hphi. pose proof P18_pos as HP.
+  destruct (exec_remove_uni_spec _ _ _ _ _ _ _ _ _ E) as (n0 & target & Hp & Hdt & _ & Hw & Ht & _ & _ & _ & M & R).
+  apply pool_of_In in Hp. destruct (inv_rng _ I _ _ Hp) as (Hn0 & Hcp0).
+  destruct M as (ML & MS & _).
+  pose proof (ML (pool_acct n) std) as ES. pose proof (ML (pool_acct n) cp) as ET. pose proof (MS (lpt n)) as EL.
+  unfold uni_remove_sheet in ES, ET. unfold lpt_delta in EL.
+  destruct (Z.eq_dec n0 n) as [Heq|Hne].
+  - subst n0. pose proof (reg_same_n _ _ _ _ I Hp Hin) as Hcc. subst cp0.
+    unfold value_le. unfold reserve_std, reserve_tok, liquidity in *.
+    set (S := bal (led s) (pool_acct n) std) in *. set (T := bal (led s) (pool_acct n) cp) in *.
+    set (L := supply s (lpt n)) in *.
+    destruct Hdt as [Hdt|Hdt]; subst dtok.
+    + fold T in Ht. ev_ind ES. ev_ind ET. ev_ind EL.
+      rewrite quot_div_nonneg in Ht by nia.
+      replace (L + L - w) with (2 * L - w) in Ht by lia.
+      pose proof (remove_one_sided_monotone T L w (phi_u s) P18 NT HL ltac:(lia) ltac:(lia) HP Hphi) as A.
+      cbv zeta in A. destruct A as (A & _).
+      replace (bal (led s') (pool_acct n) std) with S by lia.
+      replace (bal (led s') (pool_acct n) cp) with (T - target) by lia.
+      replace (supply s' (lpt n)) with (L - w) by lia.
+      rewrite Ht.
+      replace (S * T * ((L - w) * (L - w))) with (S * (T * ((L - w) * (L - w)))) by ring.
+      match goal with |- _ <= S * ?t * (L * L) => replace (S * t * (L * L)) with (S * (t * (L * L))) by ring end.
+      apply Z.mul_le_mono_nonneg_l; assumption.
+    + fold S in Ht. ev_ind ES. ev_ind ET. ev_ind EL.
+      rewrite quot_div_nonneg in Ht by nia.
+      replace (L + L - w) with (2 * L - w) in Ht by lia.
+      pose proof (remove_one_sided_monotone S L w (phi_u s) P18 NS HL ltac:(lia) ltac:(lia) HP Hphi) as A.
+      cbv zeta in A. destruct A as (A & _).
+      replace (bal (led s') (pool_acct n) std) with (S - target) by lia.
+      replace (bal (led s') (pool_acct n) cp) with T by lia.
+      replace (supply s' (lpt n)) with (L - w) by lia.
+      rewrite Ht.
+      replace (S * T * ((L - w) * (L - w))) with (T * (S * ((L - w) * (L - w)))) by ring.
+      match goal with |- _ <= ?t * T * (L * L) => replace (t * T * (L * L)) with (T * (t * (L * L))) by ring end.
+      apply Z.mul_le_mono_nonneg_l; assumption.
+  - ev_ind ES. ev_ind ET. ev_ind EL.
+    apply value_le_prod; [unfold liquidity; lia|]. unfold reserve_std, reserve_tok. rewrite ES, ET. lia.
+Qed.
+
+Lemma send_value s s' from to d amt r cp n :
+  Inv s -> In (cp, n) (pools s) -> is_pool_acct from = false ->
+  exec_send s from to d amt = Ret (s', r) -> value_le s s' cp n.
+Proof.
+  intros I Hin Hs E.
+  apply not_pool_le in Hs. destruct (inv_rng _ I _ _ Hin) as (Hn & Hcp).
+  pose proof (inv_nn _ I (pool_acct n) std) as NS. pose proof (inv_nn _ I (pool_acct n) cp) as NT.
+  destruct (exec_send_spec _ _ _ _ _ _ _ E) as (_ & Hamt & _ & M & R).
+  destruct M as (ML & MS & _).
+  pose proof (ML (pool_acct n) std) as ES. pose proof (ML (pool_acct n) cp) as ET. pose proof (MS (lpt n)) as EL.
+  unfold zero1 in EL. ev_ind ES. ev_ind ET.
+  pose proof (ind_nonneg (at_ to d (pool_acct n) std) amt ltac:(lia)).
+  pose proof (ind_nonneg (at_ to d (pool_acct n) cp) amt ltac:(lia)).
+  apply value_le_prod; [unfold liquidity; lia|]. unfold reserve_std, reserve_tok. rewrite ES, ET.
+  apply Z.mul_le_mono_nonneg; lia.
+Qed.
+
+(** ** every step *)
+Lemma step_value_monotone_lemma s m cp n :
+  Inv s -> sender_ok m -> In (cp, n) (pools s) ->
+  0 < liquidity s n -> 0 < liquidity (step s m) n ->
+  value_le s (step s m) cp n.
+Proof.
+  intros I Hs Hin HL HL'. pose proof (Inv_step s m I) as I'.
+  unfold step in *. destruct (exec s m) as [[s' r]|o] eqn:E; [|apply value_le_refl].
+  destruct m as [buy sender rcpt din ain dout aout deadline | sender dtok max_tok exact min_liq deadline
+                | sender dlpt w min_std min_tok deadline | sender cp0 dtok exact min_liq deadline
+                | sender cp0 dtok min_tok w deadline | from to d amt | dt];
+    unfold sender_ok in Hs; simpl in Hs, E.
+  - destruct (exec_swap_spec _ _ _ _ _ _ _ _ _ _ _ E) as (_ & _ & _ & Hain & Haout & Hdd & sold & bought & SE & B).
+    assert (H0 : 0 <= (if buy then bought else sold)) by (destruct buy; lia).
+    destruct (swap_value _ _ _ _ _ _ _ _ _ _ _ I Hin Hs H0 Hdd SE) as (A1 & A2).
+    apply value_le_prod; assumption.
+  - destruct (exec_add_spec _ _ _ _ _ _ _ _ _ E) as (_ & _ & Hex & _ & _ & mint & _ & Hm & AE).
+    eapply add_value; eassumption.
+  - eapply remove_value; eassumption.
+  - eapply add_uni_value; eassumption.
+  - eapply remove_uni_value; eassumption.
+  - eapply send_value; eassumption.
+  - inversion E; subst. unfold value_le, reserve_std, reserve_tok, liquidity, supply. simpl. lia.
+Qed.
+
+(** ** whole histories *)
+Fixpoint all_pos (s : state) (ms : list msg) (n : Z) : Prop :=
+  0 < liquidity s n /\ match ms with [] => True | m :: ms' => all_pos (step s m) ms' n end.
+
+Lemma all_pos_head s ms n : all_pos s ms n -> 0 < liquidity s n.
+Proof. destruct ms; simpl; tauto. Qed.
+
+Lemma all_pos_last ms : forall s n, all_pos s ms n -> 0 < liquidity (run s ms) n.
+Proof.
+  induction ms as [|m ms IH]; intros s n H; simpl in *; [tauto|]. apply IH. tauto.
+Qed.
+
+Lemma run_value_monotone ms : forall s cp n,
+  Inv s -> Forall sender_ok ms -> In (cp, n) (pools s) -> all_pos s ms n ->
+  value_le s (run s ms) cp n.
+Proof.
+  induction ms as [|m ms IH]; intros s cp n I Hok Hin Hpos; simpl.
+  - apply value_le_refl.
+  - inversion Hok as [|? ? Hm Hms]; subst. simpl in Hpos. destruct Hpos as (HL & Hpos).
+    pose proof (all_pos_head _ _ _ Hpos) as HL1. pose proof (all_pos_last _ _ _ Hpos) as HL2.
+    pose proof (Inv_step s m I) as I1. pose proof (Inv_run ms _ I1) as I2.
+    pose proof (step_value_monotone_lemma s m cp n I Hm Hin HL HL1) as V1.
+    pose proof (IH (step s m) cp n I1 Hms (step_registry_grows s m _ Hin) Hpos) as V2.
+    unfold value_le in *.
+    pose proof (inv_nn _ I (pool_acct n) std). pose proof (inv_nn _ I (pool_acct n) cp).
+    pose proof (inv_nn _ I1 (pool_acct n) std). pose proof (inv_nn _ I1 (pool_acct n) cp).
+    pose proof (inv_nn _ I2 (pool_acct n) std). pose proof (inv_nn _ I2 (pool_acct n) cp).
+    unfold reserve_std, reserve_tok in *.
+    eapply (vle_trans _ _ _ _ _ _ _ _ _ HL HL1 HL2 V1 V2).
+    Unshelve. all: apply Z.mul_nonneg_nonneg; assumption.
+Qed.
+
+Lemma run_app a : forall s b, run s (a ++ b) = run (run s a) b.
+Proof. intros s b. unfold run. apply fold_left_app. Qed.
+
+Lemma history_value_monotone_lemma s0 pre mid cp n :
+  Inv s0 -> Forall sender_ok mid ->
+  In (cp, n) (pools (run s0 pre)) -> all_pos (run s0 pre) mid n ->
+  value_le (run s0 pre) (run s0 (pre ++ mid)) cp n.
+Proof.
+  intros I Hok Hin Hpos. rewrite run_app. apply run_value_monotone; auto. apply Inv_run. exact I.
+Qed.
+
+(** ** an emptied pool *)
+Lemma restart_lemma s m cp n :
+  Inv s -> In (cp, n) (pools s) -> liquidity s n = 0 -> 0 < liquidity (step s m) n ->
+  exists sender max_tok exact min_liq deadline,
+    m = MAdd sender cp max_tok exact min_liq deadline
+    /\ acct_empty (led s) (pool_acct n) = true
+    /\ liquidity (step s m) n = exact.
+Proof.
+  intros I Hin HL HL'. destruct (inv_rng _ I _ _ Hin) as (Hn & Hcp).
+  unfold step in *. destruct (exec s m) as [[s' r]|o] eqn:E; [|lia].
+  destruct m as [buy sender rcpt din ain dout aout deadline | sender dtok max_tok exact min_liq deadline
+                | sender dlpt w min_std min_tok deadline | sender cp0 dtok exact min_liq deadline
+                | sender cp0 dtok min_tok w deadline | from to d amt | dt]; simpl in E.
+  - exfalso. destruct (swap_balance_sheet_lemma _ _ _ _ _ _ _ _ _ _ _ E) as (_ & _ & _ & _ & HS & _).
+    unfold liquidity in *. rewrite HS in HL'. lia.
+  - destruct (exec_add_spec _ _ _ _ _ _ _ _ _ E) as (_ & _ & Hex & _ & _ & mint & _ & Hm & AE).
+    destruct AE as [tax Hp Htax _ _ _ M Hps _ | n0 Hp He Hmx _ M R | n0 dep Hp He HS0 HT0 HL0 _ _ _ _ M R];
+      destruct M as (_ & MS & _); pose proof (MS (lpt n)) as EL; unfold lpt_delta in EL; unfold liquidity in *.
+    + exfalso. ev_ind EL.
+      pose proof (ind_nonpos (lpt n =? p_cdenom (par s)) (- (p_camt (par s) - tax)) ltac:(lia)). lia.
+    + apply pool_of_In in Hp. destruct (inv_rng _ I _ _ Hp) as (Hn0 & _).
+      destruct (Z.eq_dec n0 n) as [->|Hne].
+      * pose proof (reg_same_n _ _ _ _ I Hp Hin) as Hc. subst dtok.
+        exists sender, max_tok, exact, min_liq, deadline. split; [reflexivity|]. split; [exact He|].
+        ev_ind EL. lia.
+      * exfalso. ev_ind EL. lia.
+    + exfalso. apply pool_of_In in Hp. destruct (inv_rng _ I _ _ Hp) as (Hn0 & _).
+      destruct (Z.eq_dec n0 n) as [->|Hne]; [congruence|]. ev_ind EL. lia.
+  - exfalso. pose proof (exec_remove_spec _ _ _ _ _ _ _ _ _ E) as X. cbv zeta in X.
+    destruct X as (cp0 & a1 & a2 & Hc & _ & Hw & _ & _ & _ & _ & _ & _ & _ & M & R).
+    apply cp_of_list_In in Hc. fold (pools s) in Hc. destruct (inv_rng _ I _ _ Hc) as (Hn0 & _).
+    destruct M as (_ & MS & _). pose proof (MS (lpt n)) as EL. unfold lpt_delta in EL. unfold liquidity in *.
+    destruct (Z.eq_dec (dlpt - 1000) n) as [Heq|Hne]; [rewrite Heq in *; lia|]. ev_ind EL. lia.
+  - exfalso. destruct (exec_add_uni_spec _ _ _ _ _ _ _ _ _ E) as (n0 & mint & Hp & _ & _ & _ & Hnz & Hm & _ & _ & _ & M & R).
+    apply pool_of_In in Hp. destruct (inv_rng _ I _ _ Hp) as (Hn0 & _).
+    destruct M as (_ & MS & _). pose proof (MS (lpt n)) as EL. unfold lpt_delta in EL. unfold liquidity in *.
+    destruct (Z.eq_dec n0 n) as [->|Hne]; [|ev_ind EL; lia].
+    rewrite HL in Hm. rewrite !Z.mul_0_r in Hm. rewrite Z.quot_0_l in Hm by exact Hnz.
+    change (Z.sqrt 0) with 0 in Hm. ev_ind EL. lia.
+  - exfalso. destruct (exec_remove_uni_spec _ _ _ _ _ _ _ _ _ E) as (n0 & target & Hp & _ & _ & Hw & _ & _ & _ & _ & M & R).
+    apply pool_of_In in Hp. destruct (inv_rng _ I _ _ Hp) as (Hn0 & _).
+    destruct M as (_ & MS & _). pose proof (MS (lpt n)) as EL. unfold lpt_delta in EL. unfold liquidity in *.
+    destruct (Z.eq_dec n0 n) as [->|Hne]; [lia|]. ev_ind EL. lia.
+  - exfalso. destruct (exec_send_spec _ _ _ _ _ _ _ E) as (_ & _ & _ & M & _).
+    destruct M as (_ & MS & _). pose proof (MS (lpt n)) as EL. unfold zero1, liquidity in *. lia.
+  - exfalso. inversion E; subst. unfold liquidity, supply in *. simpl in HL'. unfold supply in HL. lia.
+Qed.
+
+(** an emptied pool that still holds coins (somebody sent coins to its address) cannot restart:
+    [AddLiquidity] is refused *)
+Lemma donated_empty_pool_rejects s sender dtok max_tok exact min_liq deadline n :
+  pool_of s dtok = Some n -> liquidity s n = 0 -> acct_empty (led s) (pool_acct n) = false ->
+  exists o, exec_add s sender dtok max_tok exact min_liq deadline = Fail o.
+Proof.
+  intros Hp HL He.
+  destruct (exec_add s sender dtok max_tok exact min_liq deadline) as [[s' r]|o] eqn:E; [exfalso|eauto].
+  destruct (exec_add_spec _ _ _ _ _ _ _ _ _ E) as (_ & _ & _ & _ & _ & mint & _ & _ & AE).
+  destruct AE as [tax Hp' _ _ _ _ _ _ _ | n0 Hp' He' _ _ _ _ | n0 dep Hp' _ _ _ HL0 _ _ _ _ _ _]; congruence.
+Qed.
